@@ -107,7 +107,7 @@ func (*calTypeImp) IsLeap(year int) bool {
 
 func (*calTypeImp) ToJd(date *lib.Date) int {
 	return Epoch +
-		365*(date.Year-1) + date.Year/4 +
+		365*(date.Year-1) + Div(date.Year, 4) +
 		(int(date.Month-1))*30 +
 		int(date.Day) - 15
 }
